@@ -54,7 +54,7 @@ def types(ext="stub", agi="stub"):
     k = {"fns": ["try_from"]} if ext == "body" else {"stubs": ["try_from"]}
     ka = {"fns": ["next"]} if agi == "body" else {"stubs": ["next"]}
     agi_piece = fns("src/generators/aggregated_gens_iter.rs", AGI_HEADER, "AggregatedGensIter", impl_filter="impl Iterator for AggregatedGensIter", **ka)
-    return TYPES + [with_fns(EXT_TRYFROM[0], **k), with_fns(EXT_TRYFROM[1], **k), text("spec/types_spec.rs"), text("spec/spec_gens.rs"), agi_piece]
+    return TYPES + [with_fns(EXT_TRYFROM[0], **k), with_fns(EXT_TRYFROM[1], **k), text("spec/types_spec.rs"), text("spec/spec_bytes.rs"), text("spec/spec_gens.rs"), agi_piece]
 
 
 def with_fns(piece, fns=None, stubs=None):
@@ -65,6 +65,8 @@ def with_fns(piece, fns=None, stubs=None):
 
 
 UNITS = {}
+DEFAULT_RENAMES_PLUS_TRYINTO = ("enumerate,chain,cloned,fold,any,sum,unzip,interleave,tuples,to_le_bytes,flat_map,by_ref,"
+                                "chunks,chunks_mut,chunks_exact,shr,try_into")
 
 # ---------------------------------------------------------------- U1 + U2 + U3: utilities and constructors
 UNITS["ctors"] = {
@@ -168,4 +170,18 @@ UNITS["verify"] = {
                                "b_decompressed", "li_decompressed", "ri_decompressed"], []),
     "safety": {"*": ["C16"]},
     "rlimit": 150,
+}
+
+# ---------------------------------------------------------------- U7: proof codec
+UNITS["codec"] = {
+    "prelude": PRELUDE_ALL + ["90_codec.rs"],
+    "contracts": ["ctors.vc", "gens.vc", "codec.vc"],
+    "pieces": types() + [
+        items("src/range_proof.rs", ["SERIALIZED_ELEMENT_SIZE", "FIXED_PROOF_ELEMENTS", "ENCODED_EXTENSION_SIZE"]),
+        text("spec/spec_codec.rs"),
+        fns("src/range_proof.rs", RP_HEADER, "RangeProof", fns=["to_bytes", "from_bytes", "extension_degree_from_proof_bytes"], opdesugar=False,
+            renames=DEFAULT_RENAMES_PLUS_TRYINTO, notryinto=True),
+        text("spec/canaries_codec.rs"),
+    ],
+    "safety": {"*": ["C16", "C15"]},
 }
